@@ -1,5 +1,6 @@
 import os
 import re
+from pathlib import Path
 from typing import Any, Dict, Iterable, List, Optional, Tuple, Union
 
 from django.contrib.staticfiles.finders import BaseFinder
@@ -118,7 +119,10 @@ class ComponentsFileSystemFinder(BaseFinder):
             path = path.removeprefix(prefix)
         path = safe_join(root, path)
 
-        if os.path.exists(path) and self._is_path_valid(path):
+        # NOTE: Same as in `list()`, the allowed / forbidden patterns are matched against the path relative
+        # to the component directory. Where the directory itself is located must not matter.
+        relative_path = Path(os.path.relpath(path, root)).as_posix()
+        if os.path.exists(path) and self._is_path_valid(relative_path):
             return path
         return None
 
